@@ -57,6 +57,7 @@ def effect (m : Micro) (reg : Nat) (sh : Shared) : Shared × Nat :=
   match m with
   | .read c => (sh, sh.ctr c)
   | .bump c k => ({ sh with ctr := upd sh.ctr c (sh.ctr c + k) }, reg)
+  | .bumpReg c k => ({ sh with ctr := upd sh.ctr c (reg + k) }, reg)
   | .setCtr c v => ({ sh with ctr := upd sh.ctr c v }, reg)
   | .add c g k => ({ sh with nodes := addIds c g reg k sh.nodes }, reg)
   | .addFrom c g lo k => ({ sh with nodes := addIds c g lo k sh.nodes }, reg)
